@@ -34,6 +34,12 @@ class TPMS_PARAMS:
         new_type._encrypted = True
         return tpm_dataclass(new_type)
 
+    @classmethod
+    def is_encryptable(cls) -> bool:
+        """Parameter encryption only applies if the first parameter is a TPM2B."""
+        params = list(getattr(cls, "__annotations__", {}).values())
+        return bool(params) and params[0].__name__.startswith("TPM2B")
+
     @staticmethod
     def is_encrypted_params(fields_dict: any) -> bool:
         """For encrypted params, the first field/param contains .size and .encryptedParam"""
